@@ -59,6 +59,13 @@ func NewNode(f *Factory, cacheSize uint64) (*Node, error) {
 		os.RemoveAll(dir)
 		return nil, err
 	}
+	for _, pb := range f.Pre {
+		if _, _, err := n.Chain.ProcessBlock(btcutil.NewBlock(pb.MsgBlock()), blockchain.BFNone); err != nil {
+			n.Close()
+			return nil, fmt.Errorf("preamble block refused: %w", err)
+		}
+	}
+	n.TakeNotes()
 	return n, nil
 }
 
